@@ -246,8 +246,10 @@ def main(argv=None):
     for rp, v in new_lines:
         print(f"VIOLATION property={prop} replay={rp}")
         print(f"  monitor={v['kind']} count={viol_kinds[(v['kind'], v['key'])]} detail={v['detail'][:400]}")
-    for r in inconclusive:
-        print(f"INCONCLUSIVE property={prop} reason={r}")
+    for r in inconclusive[:6]:
+        print(f"INCONCLUSIVE property={prop} reason={r[:700]}")
+    if len(inconclusive) > 6:
+        print(f"INCONCLUSIVE property={prop} ... and {len(inconclusive) - 6} more reasons (see evidence file)")
     print(
         f"{prop} {tier} seed={seed}: verdict={verdict} evaluations={evaluations} "
         f"distinct_nontrivial={distinct_nontrivial} violations={n_new} known={n_known} wall={wall:.1f}s"
